@@ -195,6 +195,15 @@ def run(ctx):
     # ---- property oracle on the implementation runs
     n_bad = 0
     for c, o in zip(cases, outs):
+        if o is not None and o.get("skipped"):
+            continue
+        if o is not None and o.get("hung"):
+            if n_bad < 3:
+                n_bad += 1
+                calls = "; ".join("[" + ", ".join(OPS[x["k"]] + ("(%d)" % x["b"] if x["k"] in "BS" else "") for x in m) + "]" for m in c["msgs"][:12])
+                ctx.violation("behavior:actor-never-idle", "switch calls per message %s: after message %d the actor did not become idle (a handler never returned or messages keep being re-run)" % (calls, o.get("hung_msg", -1)),
+                              {"driver": "go/inpkg/actor/zz_verif_C14_test.go TestVerifC14Behaviors", "case": c, "observed": o})
+            continue
         if o is None or o.get("err"):
             ctx.tie_broken("go-harness case did not complete", {"case": c, "err": (o or {}).get("err")})
             continue
@@ -210,7 +219,7 @@ def run(ctx):
 
     # ---- the Coq model on the same cases
     mism = None
-    good = [(c, o) for c, o in zip(cases, outs) if o is not None and not o.get("err")]
+    good = [(c, o) for c, o in zip(cases, outs) if o is not None and not o.get("err") and not o.get("hung") and not o.get("skipped")]
     ok_m, out_m = ctx.coq_build(["theories/C14/Model.vo"])
     if not ok_m:
         ctx.tie_broken("C14/Model.v does not compile", out_m)
